@@ -3,13 +3,44 @@ package openapi3
 import (
 	"fmt"
 	"regexp"
+	"strings"
 )
 
-var patRewriteCodepoints = regexp.MustCompile(`(?P<replaced_with_slash_x>\\u)(?P<code>[0-9A-F]{4})`)
-
+// intoGoRegexp rewrites the ECMA-262 escape \uXXXX (hexadecimal digits in either case), which Go's
+// regexp syntax lacks, as \x{XXXX}. The pattern is scanned escape by escape, so that an escaped
+// backslash followed by the letters "uXXXX" is left alone.
+//
 // See https://pkg.go.dev/regexp/syntax
 func intoGoRegexp(re string) string {
-	return patRewriteCodepoints.ReplaceAllString(re, `\x{${code}}`)
+	if !strings.Contains(re, `\u`) {
+		return re
+	}
+	var b strings.Builder
+	for i := 0; i < len(re); i++ {
+		if re[i] != '\\' || i+1 == len(re) {
+			b.WriteByte(re[i])
+			continue
+		}
+		if re[i+1] == 'u' && i+6 <= len(re) && isHexQuad(re[i+2:i+6]) {
+			b.WriteString(`\x{` + re[i+2:i+6] + `}`)
+			i += 5
+			continue
+		}
+		b.WriteByte(re[i])
+		b.WriteByte(re[i+1])
+		i++
+	}
+	return b.String()
+}
+
+func isHexQuad(s string) bool {
+	for i := 0; i < len(s); i++ {
+		c := s[i]
+		if !('0' <= c && c <= '9' || 'a' <= c && c <= 'f' || 'A' <= c && c <= 'F') {
+			return false
+		}
+	}
+	return len(s) == 4
 }
 
 // NOTE: racey WRT [writes to schema.Pattern] vs [reads schema.Pattern then writes to compiledPatterns]
